@@ -5,7 +5,10 @@
    state (any users, sessions, permissions), hence at every point of every history; history
    theorems are by induction over an arbitrary list of operations.
 
-   Three parts of the property are REFUTED by the faithful model (and replayed on the real
+   The model follows the code WITH the repair findings/C15_deleted.diff (fix: handleCallEvent
+   ignores a sender whose subscription is deleted); for it the full c15_roles_subscribed is
+   proved, and the handler as it was is refuted (c15_roles_subscribed_unrepaired_refuted).
+   Two parts of the property are REFUTED by the faithful model (and replayed on the real
    server, see findings/C15.md): they are kept as [_statement], with [_refuted] witnesses and
    [_partial] theorems whose extra hypothesis excludes exactly the trigger. *)
 From Coq Require Import ZArith NArith List Bool.
@@ -38,7 +41,8 @@ Print Assumptions c15_call_starts_only_by_invitation.
 
 (* ---- roles ---------------------------------------------------------------------------- *)
 (* Either the event is ignored (no state change, at most an error code to the sender), or it
-   names the current call, comes from a user of the topic and respects the role table:
+   names the current call, comes from a user who is a (not deleted) subscriber of the topic and
+   respects the role table:
    ringing/accept before acceptance, not from the originator's session or user;
    offer/answer/ice-candidate after acceptance from one of the two party sessions;
    hang-up after acceptance from a party session, before it from the originating session or
@@ -46,37 +50,47 @@ Print Assumptions c15_call_starts_only_by_invitation.
 Theorem c15_roles : forall cfg st s e q p st' os,
   step cfg st (OEvent s e q p) = (st', os) ->
   (st' = st /\ quiet s os) \/
-  exists c, current st = Some c /\ c_seq c = q /\ lookup (user_of cfg s) (users st) <> None /\ role_ok cfg c s e.
+  exists c, current st = Some c /\ c_seq c = q /\ participant st (user_of cfg s) = true /\ role_ok cfg c s e.
 Proof. exact roles. Qed.
 Print Assumptions c15_roles.
 
-(* refuted part: "... and the sender is still a subscriber of the topic" *)
+(* an event that has any effect on the state comes from a user who is still a subscriber:
+   from EVERY state, hence at every point of every history *)
 Definition c15_roles_subscribed_statement : Prop :=
-  forall cfg a b ops s e q p st' os,
-    let st := final cfg (init2 a b) ops in
+  forall cfg st s e q p st' os,
     step cfg st (OEvent s e q p) = (st', os) -> st' <> st -> participant st (user_of cfg s) = true.
+
+Theorem c15_roles_subscribed : c15_roles_subscribed_statement.
+Proof. exact roles_subscribed. Qed.
+Print Assumptions c15_roles_subscribed.
+
+(* the same statement for the handler as it was before the repair (only `!userFound`), over
+   histories: refuted - a participant who has unsubscribed still accepts the call *)
+Definition c15_roles_subscribed_unrepaired_statement : Prop :=
+  forall cfg a b ops s e q p st' os,
+    let st := final_unrepaired cfg (init2 a b) ops in
+    step_unrepaired cfg st (OEvent s e q p) = (st', os) -> st' <> st -> participant st (user_of cfg s) = true.
 
 Definition cfg_w2 : config := mkCfg true [(1, 1); (3, 2); (4, 2)]%N.
 Definition w2_ops : list op := [OAttach 1; OAttach 4; OInvite 1 101 0; OUnsub 4].
-Definition w2_res := step cfg_w2 (final cfg_w2 (init2 1%N 2%N) w2_ops) (OEvent 3 EvAccept 1 2).
-Example w2_step : step cfg_w2 (final cfg_w2 (init2 1%N 2%N) w2_ops) (OEvent 3 EvAccept 1 2) = (fst w2_res, snd w2_res).
+Definition w2_res := step_unrepaired cfg_w2 (final_unrepaired cfg_w2 (init2 1%N 2%N) w2_ops) (OEvent 3 EvAccept 1 2).
+Example w2_step : step_unrepaired cfg_w2 (final_unrepaired cfg_w2 (init2 1%N 2%N) w2_ops) (OEvent 3 EvAccept 1 2) = (fst w2_res, snd w2_res).
 Proof. vm_compute. reflexivity. Qed.
-Theorem c15_roles_subscribed_refuted : ~ c15_roles_subscribed_statement.
+Theorem c15_roles_subscribed_unrepaired_refuted : ~ c15_roles_subscribed_unrepaired_statement.
 Proof.
   intros H0.
   pose proof (H0 cfg_w2 1%N 2%N w2_ops 3%N EvAccept 1 2%N (fst w2_res) (snd w2_res)) as H. cbv zeta in H.
   specialize (H w2_step).
-  assert (X : participant (final cfg_w2 (init2 1%N 2%N) w2_ops) (user_of cfg_w2 3%N) = false) by (vm_compute; reflexivity).
-  assert (F : lastid (fst w2_res) <> lastid (final cfg_w2 (init2 1%N 2%N) w2_ops)) by (vm_compute; discriminate).
+  assert (X : participant (final_unrepaired cfg_w2 (init2 1%N 2%N) w2_ops) (user_of cfg_w2 3%N) = false) by (vm_compute; reflexivity).
+  assert (F : lastid (fst w2_res) <> lastid (final_unrepaired cfg_w2 (init2 1%N 2%N) w2_ops)) by (vm_compute; discriminate).
   rewrite H in X; [discriminate|]. intros E. apply F. rewrite E. reflexivity.
 Qed.
-Print Assumptions c15_roles_subscribed_refuted.
+Print Assumptions c15_roles_subscribed_unrepaired_refuted.
 
-Theorem c15_roles_subscribed_partial : forall cfg st s e q p st' os,
-  (forall u pd, lookup u (users st) = Some pd -> p_deleted pd = false) ->
-  step cfg st (OEvent s e q p) = (st', os) -> st' <> st -> participant st (user_of cfg s) = true.
-Proof. exact roles_subscribed. Qed.
-Print Assumptions c15_roles_subscribed_partial.
+(* the repaired machine ignores the witness *)
+Example c15_roles_subscribed_witness_repaired :
+  step cfg_w2 (final cfg_w2 (init2 1%N 2%N) w2_ops) (OEvent 3 EvAccept 1 2) = (final cfg_w2 (init2 1%N 2%N) w2_ops, []).
+Proof. vm_compute. reflexivity. Qed.
 
 (* ---- relay target --------------------------------------------------------------------- *)
 (* Every output of a call event other than hang-up is described by event_out_ok: the relayed
